@@ -39,6 +39,19 @@ ASSUME RouteVectors == /\ RouteIdx(RouteRec("step", 3, 0), 7) = <<0, 3, 6>>
                        /\ RouteIdx(RouteRec("nth", 3, 0), 3) = <<>> /\ RouteIdx(RouteRec("last", 0, 0), 0) = <<>>
 \* skipping by 4 * field_count lands on record boundaries exactly for all-32-bit layouts
 ASSUME StrideLaw == \A s \in Schemas : (4 * FieldCount(s) = SkipStride(s)) <=> AllWide(s)
+\* every byte of the block belongs to exactly one string (body or terminator), so every offset inside the
+\* block is a legal reference and resolves to a unique suffix; the special kinds resolve to the empty string
+ASSUME LocateLaw == \A blk \in {<<0, 2, 1>>, <<0, 1>>, <<0, 1, 1, 2>>} :
+          /\ \A off \in 0..(BlockSize(blk, StrLen) - 1) :
+                LET l == Locate(blk, StrLen, off) IN
+                /\ BlockOffsets(blk, StrLen)[l[1]] + l[2] = off /\ l[2] \in 0..StrLen[blk[l[1]]]
+                /\ Cardinality({k \in 1..Len(blk) : BlockOffsets(blk, StrLen)[k] <= off /\ off <= BlockOffsets(blk, StrLen)[k] + StrLen[blk[k]]}) = 1
+          /\ \A k \in 1..Len(blk) :
+                /\ RefTextLen(blk, StrLen, RefOffsetOfKind(blk, StrLen, k, "start", 0)) = StrLen[blk[k]]
+                /\ RefTextLen(blk, StrLen, RefOffsetOfKind(blk, StrLen, k, "nul", 0)) = 0
+                /\ RefTextLen(blk, StrLen, RefOffsetOfKind(blk, StrLen, k, "zero", 0)) = 0
+                /\ RefTextLen(blk, StrLen, RefOffsetOfKind(blk, StrLen, k, "last", 0)) = 0
+                /\ \A sk \in 0..StrLen[blk[k]] : RefTextLen(blk, StrLen, RefOffsetOfKind(blk, StrLen, k, "inside", sk)) = StrLen[blk[k]] - sk
 ASSUME Vectors == /\ RecordSize(<<[ty |-> "UInt32", arr |-> 0], [ty |-> "Float32", arr |-> 3]>>) = 16
                   /\ FieldCount(<<[ty |-> "UInt32", arr |-> 0], [ty |-> "Float32", arr |-> 3]>>) = 4
                   /\ RecordSize(<<[ty |-> "UInt8", arr |-> 3], [ty |-> "Int16", arr |-> 0]>>) = 5
